@@ -104,6 +104,12 @@ def run(ctx: Ctx) -> int:
     for s in read_dump(r.dump):
         if s["valid"]:
             add("C07", "".join(chr(c) for c in s["text"]))
+    from . import c07
+    r = ctx.tlc("MC_C07N", c07.INVN, dump=True, name="C07 number literal spellings")
+    for j, s in enumerate(read_dump(r.dump)):
+        if s["kind"] in ("int", "float"):
+            t = c07.s_of(s["text"])
+            add("C07N", t if j % 3 else "[%s, 1].size() == 2 || 1 > %s" % (t, t))
     nmodel = len(texts)
     # 2. the repository's conformance corpus and seeded mutations of it; random nested programs
     rng = random.Random(ctx.seed)
